@@ -142,9 +142,26 @@ Section WithClean.
     if negb in_class then s
     else if negb (maybe_attribute inh (contents s) n) then s
     else
+      match lookup n (contents s) with
+      | Some (OAttr KProperty _ _ _) => s       (* elif obj.kind is PROPERTY: return  (fix 76cecbe) *)
+      | found =>
+        let s1 := match found with
+                  | Some _ => s
+                  | None => add_obj n (OAttr KInstanceVar None None None) s      (* addAttribute(kind=None) *)
+                  end in
+        set_cur (Some n)
+          (upd_attr n (fun _ d a v => OAttr KInstanceVar d (set_ann a ann) (store_value v expr false)) s1)
+      end.
+
+  (* _handleInstanceVar before fix 76cecbe (kept for C03_kinds_property_self_old_refuted) *)
+  Definition handle_instance_var_old (in_class : bool) (inh : list (name * summary)) (n : name)
+             (ann : option annot) (expr : option rhs) (s : st) : st :=
+    if negb in_class then s
+    else if negb (maybe_attribute inh (contents s) n) then s
+    else
       let s1 := match lookup n (contents s) with
                 | Some _ => s
-                | None => add_obj n (OAttr KInstanceVar None None None) s      (* addAttribute(kind=None) *)
+                | None => add_obj n (OAttr KInstanceVar None None None) s
                 end in
       set_cur (Some n)
         (upd_attr n (fun _ d a v => OAttr KInstanceVar d (set_ann a ann) (store_value v expr false)) s1).
@@ -337,8 +354,8 @@ Section WithClean.
     | Def nm decos async body =>
         let fl := deco_flags in_class nm decos in
         if f_prop fl then
-          (* _handlePropertyDef: addAttribute (which sets currentAttr), then SkipNode: no children, no departure *)
-          set_cur (Some nm) (add_obj nm (OAttr KProperty (clean_doc body) None None) s)
+          (* _handlePropertyDef: addAttribute, currentAttr reset at the end (fix fbfbc45), then SkipNode: no children, no departure *)
+          set_cur None (add_obj nm (OAttr KProperty (clean_doc body) None None) s)
         else
           let s1 := set_cur None (add_obj (f_name fl) (OFun (fun_kind sc fl) async (clean_doc body)) s) in
           set_cur None (fwalk_body in_class inh body s1)
